@@ -443,6 +443,11 @@ func (c *Ctx) urlLog(fn *ssa.Function) int {
 				case *ssa.Convert:
 					find(x.X, d+1)
 				case *ssa.MakeInterface:
+					// the URL object itself handed to the formatter: %s and %v print it
+					// through String(), query included
+					if ts := x.X.Type().String(); ts == "*net/url.URL" || ts == "net/url.URL" {
+						leak = "a net/url.URL value (printed through String(), query included)"
+					}
 					find(x.X, d+1)
 				case *ssa.Slice:
 					find(x.X, d+1)
